@@ -551,6 +551,9 @@ fn enumerate(args: &Args) -> Vec<SpCase> {
         profiles.push(chain4(8));
         profiles.push(chain4(9));
         profiles.push(chain4(10));
+        profiles.push(geom4(7));
+        profiles.push(geom4(9));
+        profiles.push(geom4(10));
         profiles.push(chain2(12));
         profiles.push((1..=200u32).collect());
         for p in &profiles {
